@@ -14,7 +14,7 @@ from . import core
 
 PROPERTY_MACHINES = {
     "C03": ["c03", "c03v"],
-    "C04": ["c04"],
+    "C04": ["c04", "c04l"],
     "C16": ["c16"],
     "C17": ["c17"],
     "C18": ["c18", "c18m"],
